@@ -89,3 +89,13 @@ def replay_case(ctx, rep, clauses):
     sysfam.judge(ctx, [case], traces, "replay", clauses=clauses)
     ctx.count(evaluations=1, nontrivial=2)
     ctx.sample(case)
+
+
+def run_exemplars(ctx, clauses, extra_sig=None, accept=None):
+    """Re-execute the exemplar behaviour of every listed finding of this property (so that a finding that still fails is
+    reported as KNOWN-FINDING on every run, whatever slice the tier explores)."""
+    cases = [f["exemplar"] for f in ctx.findings if isinstance(f.get("exemplar"), dict) and "tokens" in f["exemplar"]]
+    if cases:
+        traces = sysfam.run_cases(ctx, cases)
+        sysfam.judge(ctx, cases, traces, "exemplars of listed findings", clauses=clauses, extra_sig=extra_sig, accept=accept)
+    return len(cases)
